@@ -310,7 +310,7 @@ class C15(Prop):
     def msa_case(self, rng, idx, big=False):
         mode, nseq, alen, rows, ops = self.rand_alignment(rng, big)
         sticky = len(ops)
-        fk = rng.randrange(0, nseq) if rng.random() < 0.9 else nseq + rng.randrange(0, 2)
+        fk = rng.randrange(0, nseq) if rng.random() < 0.9 else rng.choice([nseq, nseq + 1, -1])
         ops += ["dump", "validate", "fetch i=%d" % fk]
         digital = False
         if mode != "text":
@@ -321,7 +321,9 @@ class C15(Prop):
         for _ in range(rng.randrange(1, 6)):
             r = rng.random()
             gaps = rng.choice(["-_.~", "-.", "-", "-_.~*", "".join(rng.sample("-_.~*xN", rng.randrange(1, 5)))])
-            if r < 0.2:
+            if r < 0.03:
+                ops += ["rbb mask=" + cmask(alen), "dump", "validate"]      # esl_msa_RemoveBrokenBasepairs called directly
+            elif r < 0.2:
                 ops += ["colsubset mask=" + cmask(alen), "dump", "validate"]
             elif r < 0.32:
                 ops += ["minimgaps gaps=%s rf=%d" % (hx(gaps), rng.randrange(2)), "dump", "validate"]
@@ -544,7 +546,7 @@ class C15(Prop):
     def check_fetch(self, d, i, l):
         """esl_sq_FetchFromMSA against the last dump of that alignment: the ungapped row, annotation dealigned in parallel"""
         if d is None or not d.ok or l == "nomsa": return None
-        if i >= d.nseq:
+        if i >= d.nseq or i < 0:
             return None if l == "eod" else Failure("monitor", "esl_sq_FetchFromMSA(%d) on %d sequences: %s" % (i, d.nseq, l[:40]))
         if not l.startswith("ok "): return Failure("monitor", "esl_sq_FetchFromMSA failed: " + l[:60])
         kv = {}; xr = []
@@ -618,6 +620,21 @@ class C15(Prop):
         if name == "colsubset":
             mask = expand_mask(kv, before.alen)
             return self.check_cols(before, after, mask, "colsubset mask=" + kv["mask"], None)
+        if name == "rbb":
+            mask = expand_mask(kv, before.alen)
+            if after.alen != before.alen or after.f != dict(before.f, ss_cons=after.f["ss_cons"]) or after.gc != before.gc or after.gr != before.gr or after.gs != before.gs:
+                return Failure("monitor", "rbb changed something besides SS lines")
+            for olds, news, lab in [(before.ss_cons, after.ss_cons, "SS_cons")] + [(before.sq[i]["ss"], after.sq[i]["ss"], "SS of seq %d" % i) for i in range(before.nseq)]:
+                if (olds is None) != (news is None): return Failure("monitor", "rbb: %s appeared/disappeared" % lab)
+                if olds is None: continue
+                po, pn = wuss_pairs(olds), wuss_pairs(news)
+                if po is None: continue
+                if pn != set((i, j) for i, j in po if mask[i] and mask[j]):
+                    return Failure("monitor", "rbb: pairs of %s are not the original pairs with both partners retained" % lab)
+            for i in range(before.nseq):
+                if {k: v for k, v in before.sq[i].items() if k != "ss"} != {k: v for k, v in after.sq[i].items() if k != "ss"}:
+                    return Failure("monitor", "rbb changed sequence %d" % i)
+            return None
         if name in ("minimgaps", "minimgapstext", "nogaps", "nogapstext"):
             gaps = unhx(kv["gaps"]) or b""
             rf = kv.get("rf") == "1"
